@@ -22,6 +22,9 @@ try:
     subprocess.run(["git", "-C", "/repo", "worktree", "add", "--detach", "-q", rp, "HEAD"], check=True)
     r = subprocess.run(["git", "-C", rp, "apply", patch], capture_output=True, text=True)
     if r.returncode != 0:
+        # the patch was written against an older commit: merge it
+        r = subprocess.run(["git", "-C", rp, "apply", "--3way", patch], capture_output=True, text=True)
+    if r.returncode != 0:
         print("PATCH DOES NOT APPLY:", r.stderr); sys.exit(2)
     env = dict(os.environ, VERIF_REPO=rp)
     for pid in ids:
